@@ -78,7 +78,10 @@ theorem withCenter_translate (c d : Pt) (s : Sz) :
 theorem offset_translate (r : Rect) (d : Pt) (n : Int) :
     (r.translate d).offset n = (r.offset n).translate d := by
   unfold offset
-  simp only [translate_size, center_translate, withCenter_translate]
+  by_cases h : n ≥ 0
+  · simp only [h, ↓reduceIte, translate_size, translate, Rect.mk.injEq, and_true]
+    rw [Pt.ext_iff']; simp only [Pt.add_x, Pt.add_y, Pt.sub_x, Pt.sub_y]; omega
+  · simp only [h, ↓reduceIte, translate_size, center_translate, withCenter_translate]
 
 theorem withCorners_translate (a b d : Pt) :
     withCorners (a + d) (b + d) = (withCorners a b).translate d := by
